@@ -1677,7 +1677,9 @@ class Gen(object):
     def expire_history(self):
         r = self.rng
         self._reset()
-        exp = r.choice([600, 1800, 3600]) * SEC
+        # ExpireSessions reads the wall clock: the three executions of a case and its generation can be many minutes
+        # apart in the thorough tier, so "fresh" sessions stay 3 h clear of the threshold (expirations of 4-12 h)
+        exp = r.choice([4 * 3600, 6 * 3600, 12 * 3600]) * SEC
         now = self.now_ns
         # phase 1: everything older than the threshold by >= 10 s
         span1 = r.randint(60, 3600) * SEC
@@ -1690,9 +1692,9 @@ class Gen(object):
         self._rescale(start_idx, len(self.entries), now - exp - 10 * SEC - span1, now - exp - 10 * SEC)
         if r.random() < 0.4:
             self.entries.append({"k": "E", "now": now})
-        # phase 2: fresh activity, newer than the threshold by >= 180 s (leaves room for the run to start late)
+        # phase 2: fresh activity, newer than the threshold by >= 3 h (leaves room for the runs to start late)
         p2 = len(self.entries)
-        fresh_lo = now - exp + 180 * SEC
+        fresh_lo = now - exp + 3 * 3600 * SEC
         fresh_hi = now - 1 * SEC
         self.ts = fresh_lo
         live = [s for s in self.sess if s.alive]
@@ -2380,6 +2382,11 @@ def mon_c12(tr):
         parsed = _entry_cmd(e)
         cmd = parsed[1] if parsed else b""
         ps = parsed[2] if parsed else []
+        if cmd == b"MODE" and len(ps) >= 2 and ps[0].startswith(b"#") and b"b" in ps[1] and b"n" in ps[1]:
+            # a ban-list query inside a compound mode string: the server answers the list and then does NOT announce
+            # the other changes of the same command (cmd_mode.go returns when replies were sent), so what is announced
+            # no longer tells whether the channel is +n: forget it (no `external-message` judgement for this channel)
+            ref.noext.discard(chan_to_lower(ps[0]))
         closing = [m for m in st.msgs if m.prefix is None and m.command == b"ERROR" and m.params and m.params[-1].startswith(b"Closing Link")]
         nick_rejected = any(m.command in (b"431", b"432", b"433", b"451", b"461") for m in st.msgs)
         ended = set()
